@@ -74,6 +74,7 @@ def run(ck):
         ck.info("C11-R1", "assumed summary %s for %s" % (ax, fid), panics.AXIOMS[ax])
     # ---- R4 termination -------------------------------------------------------------------------------
     r4_termination(ck, [(scope, an), (scope2 - scope, an2)])
+    r6_scan_stays_inside_the_file(ck)
     # ---- R2 allocations -------------------------------------------------------------------------------
     allocs = [o for o in obl + obl2 if o.kind == "alloc"]
     ck.count("allocation sites with a size argument", len(allocs))
@@ -134,6 +135,63 @@ def r4_termination(ck, scopes):
                            "or an error" % detail[:400], where)
     ck.count("loops in the parser and series-reader closures", n)
     ck.floor(rule, "loops shown to make progress", nproved, 5)
+
+
+def r6_scan_stays_inside_the_file(ck):
+    """C11-R6: the number of positions the trial of a hunk looks at is bounded by the length of the file, not by a number from the
+    patch.  Every integer range built in try_apply_hunk (the candidate positions of the scan) starts at -1 or later and ends at
+    len(content) + 1 or earlier - engine D at the construction site.  The first guess itself comes from the hunk header and is not
+    bounded by anything; a range that runs from or to it makes the tool walk up to 2^62 candidates."""
+    from .. import ranges
+    prog = ck.prog
+    rule = "C11-R6"
+    tah = ck.anchor("libpatch::patch::try_apply_hunk")
+    if tah is None:
+        return
+    an = ranges.Analyzer(prog)
+    sites = []
+
+    def content_len(st_):
+        cands = {y for v in list(st_.out) for y in st_.out.get(v, {}) if y[0] == "#" and y[1].endswith(".content")}
+        cands |= {v for v in st_.out if v[0] == "#" and v[1].endswith(".content")}
+        return sorted(cands)
+
+    def judge(an_, fn, st_, lo_op, hi_op, node, what):
+        if st_.dead:
+            return
+        lo = an_.canon(st_, an_.term_of(fn, lo_op, st_))
+        hi = an_.canon(st_, an_.term_of(fn, hi_op, st_))
+        ok_lo = lo is not None and an_.prove(st_, ranges.Z, 0, lo[0], lo[1], 1)
+        ok_hi = False
+        rel = "no relation to the length of the file"
+        if hi is not None:
+            for y in content_len(st_):
+                if an_.prove(st_, hi[0], hi[1], y, 0, 1):
+                    ok_hi = True
+                    rel = an_.explain(st_, hi[0], y)
+        sites.append((ok_lo, ok_hi, rel, node, what))
+
+    def stmt_probe(an_, fn, bb, s, st_, out):
+        rv = s["rv"]
+        if fn.id == tah.id and not fn.blocks[bb]["cleanup"] and rv["k"] == "agg" and (rv.get("adt") or "") in (
+                "core::ops::range::Range", "core::ops::range::RangeInclusive") and len(rv["ops"]) >= 2 and \
+                any(ty in (s["lhs"].get("ty") or fn.local_ty(s["lhs"]["l"])) for ty in ("<isize>", "<usize>")):
+            judge(an_, fn, st_, rv["ops"][0], rv["ops"][1], s, rv["adt"].split("::")[-1])
+
+    def call_probe(an_, fn, bb, t, st_):
+        if fn.id == tah.id and not fn.blocks[bb]["cleanup"] and (callee_of(t).get("path") or "").endswith("RangeInclusive::<Idx>::new") and \
+                len(t["args"]) == 2 and (t["argtys"][0] in ("isize", "usize")):
+            judge(an_, fn, st_, t["args"][0], t["args"][1], t, "RangeInclusive")
+    an.stmt_probe = stmt_probe
+    an.call_probe = call_probe
+    an.analyze(tah)
+    ck.floor(rule, "integer ranges built in try_apply_hunk", len(sites), 2)
+    for ok_lo, ok_hi, rel, node, what in sites:
+        ck.require(ok_lo and ok_hi, rule, "candidate positions lie between -1 and len(content) + 1 (%s)" % what,
+                   "a range of candidate positions %s%s: its other end comes from the line number in the hunk header (plus the previous offset), "
+                   "so a header like '@@ -4611686018427387903,1 ...' makes the scan walk that many positions although none of them can match" % (
+                       "can start far below 0" if not ok_lo else "", ("%scan end far beyond the file (%s)" % (" and " if not ok_lo else "", rel)) if not ok_hi else ""),
+                   tah.where(node), ok_detail="start >= -1 and end <= len(content) + 1 proven (%s)" % rel)
 
 
 def run_thorough(ck):
